@@ -157,7 +157,7 @@ def coq_term(c):
 
 def run_model_coq(terms):
     """evaluate boolean terms inside Coq (vm_compute), sharded over coqc processes"""
-    d = os.path.join(core.BUILD, "c01cases")
+    d = os.path.join(core.SCRATCH, "c01cases")
     os.makedirs(d, exist_ok=True)
     nsh = min(core.NPROC, max(1, len(terms) // 200))
     shards = [terms[i::nsh] for i in range(nsh)]
